@@ -68,10 +68,18 @@ pub fn native_model(ty: u8, p: &[u8]) -> Option<Vec<u8>> {
 
 /// the canonical stream of a value whose canonical bytes are v
 pub fn canonical_stream(ty: u8, v: &[u8], fmt: u8) -> Vec<u8> {
-    if fmt == 0 {
+    if fmt != 1 {
         let mut s = Vec::new();
         if is_bytes_type(ty) {
-            s.extend_from_slice(&(v.len() as u64).to_le_bytes());
+            match fmt {
+                0 => s.extend_from_slice(&(v.len() as u64).to_le_bytes()),
+                3 => s.extend_from_slice(&(v.len() as u64).to_be_bytes()),
+                _ => {
+                    // bincode varint: lengths below 251 are one byte
+                    assert!(v.len() < 251);
+                    s.push(v.len() as u8)
+                }
+            }
         }
         s.extend_from_slice(v);
         s
@@ -84,20 +92,25 @@ pub fn canonical_stream(ty: u8, v: &[u8], fmt: u8) -> Vec<u8> {
 /// The trusted format parsers used as byte extractors: what plain bytes does this stream carry?
 fn plain_load(ty: u8, fmt: u8, stream: &[u8]) -> Option<Vec<u8>> {
     if is_bytes_type(ty) {
-        let v: Option<PlainBytes> = if fmt == 0 { bincode_strict(stream) } else { serde_json::from_slice(stream).ok() };
+        let v: Option<PlainBytes> = if fmt != 1 { bincode_strict(fmt, stream) } else { serde_json::from_slice(stream).ok() };
         v.map(|p| p.0)
     } else if ty == 8 {
-        let v: Option<Plain64> = if fmt == 0 { bincode_strict(stream) } else { serde_json::from_slice(stream).ok() };
+        let v: Option<Plain64> = if fmt != 1 { bincode_strict(fmt, stream) } else { serde_json::from_slice(stream).ok() };
         v.map(|p| p.0.to_vec())
     } else {
-        let v: Option<[u8; 32]> = if fmt == 0 { bincode_strict(stream) } else { serde_json::from_slice(stream).ok() };
+        let v: Option<[u8; 32]> = if fmt != 1 { bincode_strict(fmt, stream) } else { serde_json::from_slice(stream).ok() };
         v.map(|p| p.to_vec())
     }
 }
 
-fn bincode_strict<'a, T: Deserialize<'a>>(stream: &'a [u8]) -> Option<T> {
+fn bincode_strict<'a, T: Deserialize<'a>>(fmt: u8, stream: &'a [u8]) -> Option<T> {
     use bincode::Options;
-    bincode::options().with_fixint_encoding().reject_trailing_bytes().with_limit(1 << 16).deserialize(stream).ok()
+    let base = bincode::options().reject_trailing_bytes().with_limit(1 << 16);
+    match fmt {
+        2 => base.with_varint_encoding().with_little_endian().deserialize(stream).ok(),
+        3 => base.with_fixint_encoding().with_big_endian().deserialize(stream).ok(),
+        _ => base.with_fixint_encoding().with_little_endian().deserialize(stream).ok(),
+    }
 }
 
 /// what a `deserialize_bytes` consumer is handed: a byte string, or a sequence of u8 read strictly to its end
@@ -162,6 +175,7 @@ pub fn model_apply(st: &Step) -> Out {
             let expect = plain_load(*ty, *fmt, &stream.0).and_then(|p| native_model(*ty, &p));
             o.f("ok", expect.is_some());
             o.b("val", &expect.unwrap_or_default());
+            o.f("repr_ok", true);
         }
         Step::SimFmt { ty, v, shape, len, extra, err_at, tk: _ } => {
             let n = (*len as usize).min(v.0.len());
@@ -256,10 +270,12 @@ fn build(ty: u8, v: &B) -> Option<Val> {
 }
 
 fn ser<T: serde::Serialize>(x: &T, fmt: u8) -> Option<Vec<u8>> {
-    if fmt == 0 {
-        bincode::serialize(x).ok()
-    } else {
-        serde_json::to_vec(x).ok()
+    use bincode::Options;
+    match fmt {
+        0 => bincode::serialize(x).ok(),
+        2 => bincode::options().with_varint_encoding().with_little_endian().serialize(x).ok(),
+        3 => bincode::options().with_fixint_encoding().with_big_endian().serialize(x).ok(),
+        _ => serde_json::to_vec(x).ok(),
     }
 }
 
@@ -297,13 +313,17 @@ fn typed<'de, D: de::Deserializer<'de>>(ty: u8, d: D) -> Result<Val, D::Error> {
 }
 
 fn typed_load(ty: u8, fmt: u8, stream: &[u8]) -> Option<Val> {
-    if fmt == 0 {
+    if fmt != 1 {
         use bincode::Options;
-        let opts = bincode::options().with_fixint_encoding().reject_trailing_bytes().with_limit(1 << 16);
-        let mut d = bincode::Deserializer::from_slice(stream, opts);
-        let v = typed(ty, &mut d).ok()?;
-        // reject_trailing_bytes is enforced by Options::deserialize, not by a bare Deserializer: check here
-        if plain_consumed_all_bincode(ty, stream) {
+        let base = bincode::options().reject_trailing_bytes().with_limit(1 << 16);
+        let v = match fmt {
+            2 => typed(ty, &mut bincode::Deserializer::from_slice(stream, base.with_varint_encoding().with_little_endian())).ok()?,
+            3 => typed(ty, &mut bincode::Deserializer::from_slice(stream, base.with_fixint_encoding().with_big_endian())).ok()?,
+            _ => typed(ty, &mut bincode::Deserializer::from_slice(stream, base.with_fixint_encoding().with_little_endian())).ok()?,
+        };
+        // reject_trailing_bytes is enforced by Options::deserialize, not by a bare Deserializer: the trusted byte
+        // extractor (same options, strict) must have consumed the whole stream
+        if plain_load(ty, fmt, stream).is_some() {
             Some(v)
         } else {
             None
@@ -350,7 +370,16 @@ pub fn real_apply(st: &Step) -> Out {
         Step::Load { ty, fmt, stream } => {
             let v = typed_load(*ty, *fmt, &stream.0);
             o.f("ok", v.is_some());
+            // a deserialised point must be a consistent representation (all four extended coordinates)
+            let repr_ok = match &v {
+                Some(Val::Ed(p)) => refmodel::ed::check_extended(&curve25519_dalek::verif_hooks::edwards_coords(p)).is_ok(),
+                Some(Val::Ris(p)) => {
+                    refmodel::ed::check_extended(&curve25519_dalek::verif_hooks::edwards_coords(&curve25519_dalek::verif_hooks::ristretto_inner(p))).is_ok()
+                }
+                _ => true,
+            };
             o.b("val", &v.map(|v| v.canon()).unwrap_or_default());
+            o.f("repr_ok", repr_ok);
         }
         Step::SimFmt { ty, v, shape, len, extra, err_at, tk } => {
             let n = (*len as usize).min(v.0.len());
@@ -533,13 +562,11 @@ pub fn expand(st: &Step, c: &mut Counters) -> Vec<Step> {
         s.extend_from_slice(&clean);
         push(c, "enum:duplicated_block", s);
     }
-    if fmt == 0 && ty == 6 {
+    if fmt != 1 && ty == 6 {
         // a 64-byte keypair (seed || matching public key) where a 32-byte seed is expected
         let mut body = v.0.clone();
         body.extend_from_slice(&refmodel::eddsa::public_key(&v.a32()));
-        let mut s = 64u64.to_le_bytes().to_vec();
-        s.extend_from_slice(&body);
-        push(c, "enum:keypair_for_seed", s);
+        push(c, "enum:keypair_for_seed", canonical_stream(ty, &body, fmt));
     }
     if fmt == 1 && ty == 6 {
         let mut body = v.0.clone();
@@ -598,6 +625,14 @@ pub fn expand(st: &Step, c: &mut Counters) -> Vec<Step> {
             let mut t = toks.clone();
             t[k] = "null".into();
             push(c, "enum:json_element_type_confusion", json_of(&t));
+        }
+        // very long sequences: the value followed by many more elements (counters must not wrap)
+        for extra in [223usize, 224, 225, 255, 256, 257, 512, 65536 - 32, 65536] {
+            let mut t = toks.clone();
+            for i in 0..extra {
+                t.push(((i * 7) % 256).to_string());
+            }
+            push(c, "enum:json_very_long_sequence", json_of(&t));
         }
         // framing
         let inner = String::from_utf8(json_of(&toks)).unwrap();
